@@ -32,6 +32,7 @@ enum Kind { K_KICKX = 0, K_KICKY, K_RF_LIN, K_RF_SIN, K_DRIFT, K_WAKE, K_FP, K_I
 static const char* KNAME[] = {"kick_x", "kick_y", "rf_linear", "rf_sinus", "drift", "wake", "fokker_planck", "identity"};
 
 struct Spec {
+    int empty_bucket = -1;   // >= 0: that bucket of the train is declared empty in the filling pattern (its cells are data like any other)
     bool clamp = false;   // InterpolateClamped (a limiter where implemented; the self-consistency checks C08 must hold with it too)
     Kind kind = K_KICKX;
     uint32_t n = 32, nb = 1;
@@ -90,6 +91,7 @@ inline std::vector<integral_t> filling_for(uint32_t nb) {
 inline Built build(const Spec& s, uint32_t nb_now) {
     Built b;
     auto fill = filling_for(nb_now);
+    if (s.empty_bucket >= 0 && (uint32_t)s.empty_bucket < nb_now && nb_now > 1) { fill[s.empty_bucket] = 0; for (auto& f : fill) if (f > 0) f = 1.0f / (nb_now - 1); }
     b.in = grid_for(s, fill);
     b.out = grid_for(s, fill);
     auto it = (SourceMap::InterpolationType)s.it;
